@@ -317,6 +317,9 @@ func (f *Fam) checkEnd(obs string, fail func(string, string, string)) {
 		fail("set-equals-target", "C05:set-ne-staked-set", fmt.Sprintf("EndBlock %d: Tendermint's set %v, top staked unjailed %v", f.height, f.tm, tgt))
 	}
 	for a := range f.tm {
+		if si, ok := s.Sign[a]; ok && si.Tomb {
+			fail("tombstone-forever", "C09:tombstoned-in-set", fmt.Sprintf("EndBlock %d: validator %s convicted of double signing (tombstoned) is in Tendermint's set again", f.height, a))
+		}
 		if v, ok := s.Vals[a]; ok && v.Jailed {
 			fail("jailed-no-power", "C09:jailed-in-set", fmt.Sprintf("EndBlock %d: jailed validator %s still in Tendermint's set", f.height, a))
 		}
